@@ -323,7 +323,12 @@ static void do_giveback_check(const Op& op) {
       if (H.fp_mapped[i] > H.fp_mapped[i - 1]) { if (!steps_m) first_m = i; steps_m++; }
       if (purging && H.fp_resident[i] > H.fp_resident[i - 1]) { if (!steps_r) first_r = i; steps_r++; }
     }
-    const size_t need = single ? 1 : 2;
+    // bit3 (arenas that are too small, c11_manyarenas): the reserve size doubles with every 8th arena, so the arena layout may need more than one
+    // repetition to reach its fixed point; creep is then growth that goes on: at least three growing steps and the last step still grows
+    const bool adapt = (op.a & 8) != 0;
+    const size_t last = H.fp_mapped.size() - 1;
+    if (adapt && !(H.fp_mapped.size() >= 2 && H.fp_mapped[last] > H.fp_mapped[last - 1]) && !(purging && H.fp_resident[last] > H.fp_resident[last - 1])) return;
+    const size_t need = adapt ? 3 : single ? 1 : 2;
     if (steps_m >= need) { char seq[256]; size_t o = 0; for (size_t k = 0; k < H.fp_mapped.size() && o < sizeof seq - 24; k++) o += (size_t)snprintf(seq + o, sizeof seq - o, "%s%lluM", k ? "," : "", (unsigned long long)(H.fp_mapped[k] >> 20));
       sim_violation("footprint_creep", "mapped memory grows from repetition %zu to %zu: %llu -> %llu bytes, %zu growing step(s) (after each repetition: %s)", first_m, first_m + 1, (unsigned long long)H.fp_mapped[first_m - 1], (unsigned long long)H.fp_mapped[first_m], steps_m, seq); }
     if (steps_r >= need) sim_violation("footprint_creep", "resident memory grows from repetition %zu to %zu: %llu -> %llu bytes, %zu growing step(s)", first_r, first_r + 1, (unsigned long long)H.fp_resident[first_r - 1], (unsigned long long)H.fp_resident[first_r], steps_r);
